@@ -120,8 +120,14 @@ func R20(p *core.Prog) *core.Result {
 					if !ok {
 						return true
 					}
-					if fl := lits[info.ObjectOf(id)]; fl != nil && funcLitTestsLen(fl) {
+					if fl := lits[info.ObjectOf(id)]; fl != nil && funcLitTestsLen(fl.Body) {
 						okLen = true
+					}
+					// the resolver may also be a package-level function
+					if fo, isFn := info.ObjectOf(id).(*types.Func); isFn && fo.Pkg() == gp.Types {
+						if d := findFuncDecl(gp, fo.Name()); d != nil && d.Body != nil && funcLitTestsLen(d.Body) {
+							okLen = true
+						}
 					}
 					return true
 				})
@@ -159,7 +165,7 @@ func R20(p *core.Prog) *core.Result {
 				if res.Len() != 1 || !isSelectorResult(res.At(0).Type()) {
 					continue
 				}
-				if sc.Name() == "pop" || sc.Name() == "push" {
+				if core.FuncName(sc) == "pop" || core.FuncName(sc) == "push" {
 					continue // stack bookkeeping: discarding the popped state is the point
 				}
 				dead++
@@ -211,7 +217,7 @@ func R20(p *core.Prog) *core.Result {
 	})
 	find("built-in fast paths (getFoldGoTypes)", func(in ssa.Instruction) bool {
 		c, ok := in.(*ssa.Call)
-		return ok && c.Common().StaticCallee() != nil && c.Common().StaticCallee().Name() == "getFoldGoTypes"
+		return ok && c.Common().StaticCallee() != nil && core.FuncName(c.Common().StaticCallee()) == "getFoldGoTypes"
 	})
 	find("Folder interface", func(in ssa.Instruction) bool {
 		ta, ok := in.(*ssa.TypeAssert)
@@ -223,11 +229,11 @@ func R20(p *core.Prog) *core.Result {
 	})
 	find("named-type conversion (getFoldConvert)", func(in ssa.Instruction) bool {
 		c, ok := in.(*ssa.Call)
-		return ok && c.Common().StaticCallee() != nil && c.Common().StaticCallee().Name() == "getFoldConvert"
+		return ok && c.Common().StaticCallee() != nil && core.FuncName(c.Common().StaticCallee()) == "getFoldConvert"
 	})
 	find("reflection (foldAnyReflect)", func(in ssa.Instruction) bool {
 		c, ok := in.(*ssa.Call)
-		return ok && c.Common().StaticCallee() != nil && c.Common().StaticCallee().Name() == "foldAnyReflect"
+		return ok && c.Common().StaticCallee() != nil && core.FuncName(c.Common().StaticCallee()) == "foldAnyReflect"
 	})
 	if len(anchors) == 5 {
 		for i := 0; i+1 < len(anchors); i++ {
@@ -256,7 +262,7 @@ func R20(p *core.Prog) *core.Result {
 				if !ok || c.Common().StaticCallee() == nil {
 					continue
 				}
-				switch c.Common().StaticCallee().Name() {
+				switch core.FuncName(c.Common().StaticCallee()) {
 				case "lookupReflUser":
 					user = in
 				case "find":
@@ -284,11 +290,11 @@ func R20(p *core.Prog) *core.Result {
 		for _, b := range f.Blocks {
 			for _, in := range b.Instrs {
 				c, isC := in.(*ssa.Call)
-				if !isC || c.Common().StaticCallee() == nil || c.Common().StaticCallee().Name() != "IsUpper" || funcPkgPath(c.Common().StaticCallee()) != "unicode" {
+				if !isC || c.Common().StaticCallee() == nil || core.FuncName(c.Common().StaticCallee()) != "IsUpper" || funcPkgPath(c.Common().StaticCallee()) != "unicode" {
 					continue
 				}
 				if ex, isE := c.Common().Args[0].(*ssa.Extract); isE && ex.Index == 0 {
-					if dc, isD := ex.Tuple.(*ssa.Call); isD && dc.Common().StaticCallee() != nil && dc.Common().StaticCallee().Name() == "DecodeRuneInString" {
+					if dc, isD := ex.Tuple.(*ssa.Call); isD && dc.Common().StaticCallee() != nil && core.FuncName(dc.Common().StaticCallee()) == "DecodeRuneInString" {
 						ok = true
 					}
 				}
@@ -314,7 +320,7 @@ func R20(p *core.Prog) *core.Result {
 			for _, b := range f.Blocks {
 				for _, in := range b.Instrs {
 					c, ok := in.(*ssa.Call)
-					if !ok || c.Common().StaticCallee() == nil || c.Common().StaticCallee().Name() != "SetActive" || len(c.Common().Args) < 2 || isNilConst(c.Common().Args[1]) {
+					if !ok || c.Common().StaticCallee() == nil || core.FuncName(c.Common().StaticCallee()) != "SetActive" || len(c.Common().Args) < 2 || isNilConst(c.Common().Args[1]) {
 						continue
 					}
 					// receiver is captured state
@@ -380,9 +386,9 @@ func nodeMentions(n ast.Node, ident string) bool {
 }
 
 // funcLitTestsLen: the literal returns a comparison of <x>.Len() with 0.
-func funcLitTestsLen(fl *ast.FuncLit) bool {
+func funcLitTestsLen(body ast.Node) bool {
 	found := false
-	ast.Inspect(fl.Body, func(n ast.Node) bool {
+	ast.Inspect(body, func(n ast.Node) bool {
 		be, ok := n.(*ast.BinaryExpr)
 		if !ok {
 			return true
@@ -427,7 +433,7 @@ func nameAgree(p *core.Prog, r *core.Result, fnName string) {
 	for _, b := range f.Blocks {
 		for _, in := range b.Instrs {
 			if ex, ok := in.(*ssa.Extract); ok && ex.Index == 0 {
-				if c, ok := ex.Tuple.(*ssa.Call); ok && c.Common().StaticCallee() != nil && c.Common().StaticCallee().Name() == "parseTags" {
+				if c, ok := ex.Tuple.(*ssa.Call); ok && c.Common().StaticCallee() != nil && core.FuncName(c.Common().StaticCallee()) == "parseTags" {
 					tagName = ex
 				}
 			}
@@ -445,7 +451,7 @@ func nameAgree(p *core.Prog, r *core.Result, fnName string) {
 			switch x := in.(type) {
 			case *ssa.Call:
 				sc := x.Common().StaticCallee()
-				if sc != nil && strings.HasPrefix(sc.Name(), "make") && strings.Contains(sc.Name(), "FieldFold") && len(x.Common().Args) > 0 {
+				if sc != nil && strings.HasPrefix(core.FuncName(sc), "make") && strings.Contains(core.FuncName(sc), "FieldFold") && len(x.Common().Args) > 0 {
 					if b, ok := x.Common().Args[0].Type().Underlying().(*types.Basic); ok && b.Kind() == types.String {
 						sinks = append(sinks, x.Common().Args[0])
 					}
@@ -476,7 +482,7 @@ func nameAgree(p *core.Prog, r *core.Result, fnName string) {
 				if e == tagName {
 					hasTag = true
 				}
-				if c, ok := e.(*ssa.Call); ok && c.Common().StaticCallee() != nil && funcPkgPath(c.Common().StaticCallee()) == "strings" && c.Common().StaticCallee().Name() == "ToLower" {
+				if c, ok := e.(*ssa.Call); ok && c.Common().StaticCallee() != nil && funcPkgPath(c.Common().StaticCallee()) == "strings" && core.FuncName(c.Common().StaticCallee()) == "ToLower" {
 					// argument must be the struct field's Name, not the tag name
 					arg := c.Common().Args[0]
 					if arg != tagName && !dependsOn(arg, tagName) {
